@@ -121,6 +121,26 @@ vi_op(int argc, char **argv)
 #include <ufw/crc/crc16-arc.h>
 #define HAVE_CRC_OPS
 
+/* The checksum of an octet sequence must not depend on where the sequence lies in memory: run it at
+ * every start alignment 0..7 (data placed at the END of an exact-size heap block, so an over-read is an
+ * ASan report).  Returns the value at alignment 0; *dep is set to 1 + the first alignment that differs. */
+static uint16_t
+crc_all_alignments(uint16_t init, const unsigned char *buf, size_t n, int *dep)
+{
+    uint16_t ref = 0;
+    for (unsigned a = 0; a < 8; ++a) {
+        /* malloc results are 16-aligned; the data ends exactly at the end of the block */
+        unsigned char *blk = malloc(n + a ? n + a : 1);
+        unsigned char *p = blk + a;
+        if (n) memcpy(p, buf, n);
+        uint16_t v = ufw_crc16_arc(init, p, n);
+        if (a == 0) ref = v;
+        else if (v != ref && *dep == 0) *dep = 1 + (int)a;
+        free(blk);
+    }
+    return ref;
+}
+
 static void
 crc_op(int argc, char **argv)
 {
@@ -129,7 +149,10 @@ crc_op(int argc, char **argv)
     if (strcmp(op, "crc.buf") == 0 && argc == 3) {
         size_t n; unsigned char *buf = parse_hex(argv[2], &n);
         if (!buf) { printf("bad-op"); return; }
-        snprintf(out, sizeof out, "%04x", ufw_crc16_arc((uint16_t)strtoul(argv[1], NULL, 16), buf, n));
+        int dep = 0;
+        uint16_t v = crc_all_alignments((uint16_t)strtoul(argv[1], NULL, 16), buf, n, &dep);
+        if (dep) snprintf(out, sizeof out, "%04x depends-on-alignment:%d", v, dep - 1);
+        else snprintf(out, sizeof out, "%04x", v);
         free(buf);
     } else if (strcmp(op, "crc.split") == 0 && argc == 4) {
         size_t n; unsigned char *buf = parse_hex(argv[2], &n);
@@ -141,6 +164,11 @@ crc_op(int argc, char **argv)
         memcpy(b2, buf + k, n - k);
         uint16_t whole = ufw_crc16_arc(init, buf, n);
         uint16_t split = ufw_crc16_arc(ufw_crc16_arc(init, buf, k), b2, n - k);
+        /* ... and continued in place (the second part starts wherever the first one ended) */
+        uint16_t inplace = ufw_crc16_arc(ufw_crc16_arc(init, buf, k), buf + k, n - k);
+        if (inplace != split)
+            snprintf(out, sizeof out, "whole=%04x split=%04x in-place=%04x", whole, split, inplace);
+        else
         snprintf(out, sizeof out, "whole=%04x split=%04x", whole, split);
         free(b2); free(buf);
     } else if (strcmp(op, "crc.u16") == 0 && argc == 3) {
@@ -153,7 +181,13 @@ crc_op(int argc, char **argv)
     } else if (strcmp(op, "crc.initial") == 0 && argc == 2) {
         size_t n; unsigned char *buf = parse_hex(argv[1], &n);
         if (!buf) { printf("bad-op"); return; }
-        snprintf(out, sizeof out, "%04x", ufw_buffer_crc16_arc(buf, n));
+        uint16_t v0 = ufw_buffer_crc16_arc(buf, n);
+        unsigned char *odd = malloc(n + 1);
+        if (n) memcpy(odd + 1, buf, n);
+        uint16_t v1 = ufw_buffer_crc16_arc(odd + 1, n);
+        if (v0 != v1) snprintf(out, sizeof out, "%04x depends-on-alignment:1", v0);
+        else snprintf(out, sizeof out, "%04x", v0);
+        free(odd);
         free(buf);
     } else if (strcmp(op, "crc.table") == 0) {
         for (unsigned i = 0; i < 256; i++) {
